@@ -223,7 +223,11 @@ def route_table(repo, fns, reach):
         store_calls = set(re.findall(r"\bstore\s*\.\s*(\w+)\s*\(", body)) | set(re.findall(r"continuities\(\)\s*\.\s*(\w+)\s*\(", body))
         engine_calls = set(re.findall(r"\bengine\s*\.\s*(\w+)\s*\(", body)) - {"continuities"}
         unknown = [c for c in store_calls if c not in fns and c not in ("clone", "workspace_root")]
-        r = any(reach.get(c, False) for c in store_calls) or bool(engine_calls) or bool(unknown)
+        # the state / store / engine handed to some other function as a value: callee invisible here
+        handed_on = re.findall(r"[(,]\s*&?\s*(?:mut\s+)?(state|store|engine)\s*[,)]", body)
+        if handed_on:
+            notes.append(f"route {meth.upper()} {path} -> {name}: hands on {sorted(set(handed_on))} as an argument: treated as reaching an append")
+        r = any(reach.get(c, False) for c in store_calls) or bool(engine_calls) or bool(unknown) or bool(handed_on)
         notes.append(f"route {meth.upper()} {path} -> {name}: store calls {sorted(store_calls)}, other engine calls {sorted(engine_calls)} => reaches append: {r}")
         rows.append(r)
     return rows, notes
